@@ -16,8 +16,11 @@ import (
 // must give the rows of the no-flush schedule (and of the reference model).
 
 type c03Case struct {
-	Schema  int   `json:"schema"`  // 0 = t1, 1 = tp (PERCENTILE + SHIFT fields)
-	MemCap  bool  `json:"mem_cap"` // MaxMemoryRatio 0.9: forced flushes are sorted through emsort
+	Schema int  `json:"schema"`  // 0 = t1, 1 = tp (PERCENTILE + SHIFT fields)
+	MemCap bool `json:"mem_cap"` // MaxMemoryRatio 0.9: forced flushes are sorted through emsort
+	// Alpha 1: the keyed alphabet (three keys), so that a flush merges a file holding several keys that have
+	// nothing in the memstore (their rows pass through in encoded form)
+	Alpha   int   `json:"alpha,omitempty"`
 	Inserts []int `json:"inserts"`
 	// Gaps[i] is what happens after insert i: 0 nothing, 1 flush, 2 clean restart, 3 flush + restart
 	Gaps []int `json:"gaps"`
@@ -30,13 +33,32 @@ func c03Alphabet() []*rm.Pt {
 	return []*rm.Pt{
 		{TS: 1 * sec, Dims: k(), Vals: D("a", 2.0)},
 		{TS: 2 * sec, Dims: k(), Vals: D("a", 3.0, "w", 2)},
-		{TS: 4 * sec, Dims: k(), Vals: D("a", 5.0)},              // leaves a gap at 3 s
-		{TS: 3 * sec / 2, Dims: k(), Vals: D("a", 1.0, "w", 1)},  // same period as [1]
-		{TS: 6 * sec, Dims: k(), Vals: D("a", 4.0)},              // newest
+		{TS: 4 * sec, Dims: k(), Vals: D("a", 5.0)},                             // leaves a gap at 3 s
+		{TS: 3 * sec / 2, Dims: k(), Vals: D("a", 1.0, "w", 1)},                 // same period as [1]
+		{TS: 6 * sec, Dims: k(), Vals: D("a", 4.0)},                             // newest
 		{TS: 2 * sec, Dims: D("x", 2, "y", false), Vals: D("a", 7.0, "b", 0.5)}, // second key
-		{TS: sec / 2, Dims: k(), Vals: D("a", 6.0)},              // older period than anything stored
-		{TS: 3 * sec, Dims: k(), Vals: D("a", -1.0, "b", 0.5)},   // fills the gap
+		{TS: sec / 2, Dims: k(), Vals: D("a", 6.0)},                             // older period than anything stored
+		{TS: 3 * sec, Dims: k(), Vals: D("a", -1.0, "b", 0.5)},                  // fills the gap
 	}
+}
+
+func c03KeyedAlphabet() []*rm.Pt {
+	k := func(i int) map[string]interface{} { return D("x", i, "y", true) }
+	return []*rm.Pt{
+		{TS: 1 * sec, Dims: k(1), Vals: D("a", 1.0)},
+		{TS: 1 * sec, Dims: k(2), Vals: D("a", 2.0, "w", 2)},
+		{TS: 1 * sec, Dims: k(3), Vals: D("a", 4.0)},
+		{TS: 2 * sec, Dims: k(1), Vals: D("a", 8.0, "b", 0.5)},
+		{TS: 2 * sec, Dims: k(2), Vals: D("a", 16.0)},
+		{TS: 3 * sec, Dims: k(3), Vals: D("a", 32.0, "w", 1)},
+	}
+}
+
+func c03AlphabetOf(cs c03Case) []*rm.Pt {
+	if cs.Alpha == 1 {
+		return c03KeyedAlphabet()
+	}
+	return c03Alphabet()
 }
 
 func tableTP() *rm.Table {
@@ -77,7 +99,7 @@ func c03Setup(schema int, memCap bool) (*rm.Table, dbdrv.Config, []string) {
 // c03Execute runs one schedule and returns, per query, the canonical rows.
 func c03Execute(c *fw.Ctx, cs c03Case, gaps []int, report bool) (map[string][]string, *rm.State, bool) {
 	t, cfg, queries := c03Setup(cs.Schema, cs.MemCap)
-	alpha := c03Alphabet()
+	alpha := c03AlphabetOf(cs)
 	dir := newDir(c)
 	defer removeDir(dir)
 	db, err := dbdrv.Open(dir, cfg)
@@ -183,7 +205,7 @@ func c03Execute(c *fw.Ctx, cs c03Case, gaps []int, report bool) (map[string][]st
 }
 
 func c03Run(c *fw.Ctx, cs c03Case) {
-	base, _, ok := c03Execute(c, c03Case{Schema: cs.Schema, MemCap: cs.MemCap, Inserts: cs.Inserts, Long: cs.Long}, nil, true)
+	base, _, ok := c03Execute(c, c03Case{Schema: cs.Schema, MemCap: cs.MemCap, Alpha: cs.Alpha, Inserts: cs.Inserts, Long: cs.Long}, nil, true)
 	if !ok {
 		return
 	}
@@ -203,7 +225,11 @@ func c03Run(c *fw.Ctx, cs c03Case) {
 }
 
 func c03Enumerate(c *fw.Ctx, schema int, memCap bool, n int, gapKinds int, idx *int64) bool {
-	k := len(c03Alphabet())
+	return c03EnumerateA(c, schema, memCap, 0, n, gapKinds, idx)
+}
+
+func c03EnumerateA(c *fw.Ctx, schema int, memCap bool, alpha int, n int, gapKinds int, idx *int64) bool {
+	k := len(c03AlphabetOf(c03Case{Alpha: alpha}))
 	total := ipow(k, n)
 	nsched := ipow(gapKinds, n)
 	for si := int64(0); si < total; si++ {
@@ -217,11 +243,11 @@ func c03Enumerate(c *fw.Ctx, schema int, memCap bool, n int, gapKinds int, idx *
 				c.Incomplete(fmt.Sprintf("time budget used up (schema %d memcap %v length %d)", schema, memCap, n))
 				return false
 			}
-			cs := c03Case{Schema: schema, MemCap: memCap, Inserts: inserts, Gaps: seqFromIndex(gi, gapKinds, n)}
+			cs := c03Case{Schema: schema, MemCap: memCap, Alpha: alpha, Inserts: inserts, Gaps: seqFromIndex(gi, gapKinds, n)}
 			c.Eval(1)
 			c.Trace(1)
 			c.Nontrivial(fmt.Sprint(cs))
-			c.Sample(fmt.Sprintf("schema%d-mem%v", schema, memCap), cs)
+			c.Sample(fmt.Sprintf("schema%d-mem%v-alpha%d", schema, memCap, alpha), cs)
 			c03Run(c, cs)
 		}
 	}
@@ -230,9 +256,9 @@ func c03Enumerate(c *fw.Ctx, schema int, memCap bool, n int, gapKinds int, idx *
 
 func init() {
 	fw.Register(&fw.Prop{
-		ID:    "C03",
-		Level: "model_checking",
-		Rule: "insert sequences over an 8-point alphabet (several periods of one key with a gap, collisions, a point older and one newer than stored data, a second key) × every flush/restart schedule (after each insert: nothing, FlushAll, clean restart, both) × schemas {t1, tp with PERCENTILE and SHIFT fields} × MaxMemoryRatio {0, 0.9 (sorted forced flush)}; plus 11 and 21 single-datum flushes (crossing the truncating 10th flush); 17/12 field-subset queries each; oracle: identical rows to the no-flush schedule and to the reference model, disk-only == mem-inclusive right after each flush; every schedule with >=1 flush/restart is non-trivial",
+		ID:          "C03",
+		Level:       "model_checking",
+		Rule:        "insert sequences over an 8-point alphabet (several periods of one key with a gap, collisions, a point older and one newer than stored data, a second key) and over a 6-point keyed alphabet (three keys × two periods, so that flushes merge files holding several keys absent from the memstore) × every flush/restart schedule (after each insert: nothing, FlushAll, clean restart, both) × schemas {t1, tp with PERCENTILE and SHIFT fields} × MaxMemoryRatio {0, 0.9 (sorted forced flush)}; plus 11 and 21 single-datum flushes (crossing the truncating 10th flush); 17/12 field-subset queries each; oracle: identical rows to the no-flush schedule and to the reference model, disk-only == mem-inclusive right after each flush; every schedule with >=1 flush/restart is non-trivial",
 		Assumptions: []string{"timed flushes are explored as the forced-flush actor message (same code path apart from allowSort)", "PERCENTILE and SHIFT fields are compared schedule-vs-schedule only"},
 		Shards:      func(tier string) int { return 16 },
 		Budget: func(tier string) time.Duration {
@@ -259,16 +285,19 @@ func init() {
 			if c.Thorough() {
 				if !c03Enumerate(c, 0, false, 3, 4, &idx) || !c03Enumerate(c, 1, false, 3, 4, &idx) ||
 					!c03Enumerate(c, 0, true, 3, 4, &idx) || !c03Enumerate(c, 1, true, 2, 4, &idx) ||
-					!c03Enumerate(c, 0, false, 4, 2, &idx) {
+					!c03Enumerate(c, 0, false, 4, 2, &idx) ||
+					!c03EnumerateA(c, 0, true, 1, 3, 4, &idx) || !c03EnumerateA(c, 0, false, 1, 3, 4, &idx) ||
+					!c03EnumerateA(c, 0, true, 1, 4, 2, &idx) || !c03EnumerateA(c, 1, true, 1, 3, 2, &idx) {
 					return
 				}
-				c.R.Bound = "length 3 all 4^3 schedules (t1, tp, t1 sorted), tp sorted length 2, t1 length 4 with flush/no-flush gaps"
+				c.R.Bound = "length 3 all 4^3 schedules (t1, tp, t1 sorted), tp sorted length 2, t1 length 4 with flush/no-flush gaps; keyed alphabet: length 3 all 4^3 schedules (t1 sorted and unsorted), length 4 flush gaps (t1 sorted), length 3 flush gaps (tp sorted)"
 			} else {
 				if !c03Enumerate(c, 0, false, 3, 2, &idx) || !c03Enumerate(c, 0, false, 2, 4, &idx) ||
-					!c03Enumerate(c, 1, false, 2, 4, &idx) || !c03Enumerate(c, 0, true, 2, 4, &idx) || !c03Enumerate(c, 1, true, 2, 2, &idx) {
+					!c03Enumerate(c, 1, false, 2, 4, &idx) || !c03Enumerate(c, 0, true, 2, 4, &idx) || !c03Enumerate(c, 1, true, 2, 2, &idx) ||
+					!c03EnumerateA(c, 0, true, 1, 3, 2, &idx) || !c03EnumerateA(c, 0, false, 1, 3, 2, &idx) {
 					return
 				}
-				c.R.Bound = "t1 length 3 flush/no-flush gaps; length 2 all 4^2 schedules for t1, tp, t1 sorted; tp sorted flush gaps"
+				c.R.Bound = "t1 length 3 flush/no-flush gaps; length 2 all 4^2 schedules for t1, tp, t1 sorted; tp sorted flush gaps; keyed alphabet length 3 flush gaps (t1 sorted and unsorted)"
 			}
 		},
 		Replay: func(c *fw.Ctx, raw json.RawMessage) {
